@@ -127,6 +127,11 @@ def build(case, tmp):
     elif inner == "subst":
         settings_w["myst_substitutions"] = dict(SUBS, xval=x_text)
         core_blocks = [{"t": "subst_block", "key": "xval"}]
+        if case.get("twice"):
+            # the same substitution used a second time == its value written twice
+            core_blocks = [{"t": "subst_block", "key": "xval"}, {"t": "para", "inl": [{"t": "text", "s": "Between the two."}]},
+                           {"t": "subst_block", "key": "xval"}]
+            x_inplace = x_text + "\n\nBetween the two.\n\n" + x_text
     else:
         core_blocks = x_blocks
         if case.get("twice"):
@@ -313,7 +318,7 @@ def case_st(draw, inner=None):
     # earlier is the recorded finding about definition order, and the second copy would see the first copy's definitions)
     if inner == "include" and draw(st.integers(0, 3)) == 0:
         case["slice"] = True
-    if inner == "include" and draw(st.integers(0, 2)) == 0 and not any(b["t"] == "refdef" for b in mdgen.walk_blocks(x)):
+    if inner in ("include", "subst") and draw(st.integers(0, 2)) == 0 and not any(b["t"] == "refdef" for b in mdgen.walk_blocks(x)):
         case["twice"] = True
         case["outer_use"] = False     # (the extra definitions would be duplicates of themselves)
     return case
